@@ -1747,6 +1747,13 @@ GRIupdateRIG(int32 hdf_file_id, ri_info_t *img_ptr)
     /* write out RIG */
     if (img_ptr->rig_ref == DFTAG_WILDCARD)
         img_ptr->rig_ref = Htagnewref(hdf_file_id, DFTAG_RIG);
+    /* A group already in the file may have to grow (an image that gets its first palette in a later
+       session): let its descriptor take data of a new length instead of writing over the old element */
+    else if (Hexist(hdf_file_id, DFTAG_RIG, img_ptr->rig_ref) == SUCCEED &&
+             HDreuse_tagref(hdf_file_id, DFTAG_RIG, img_ptr->rig_ref) == FAIL) {
+        DFdifree(GroupID);
+        HGOTO_ERROR(DFE_GROUPWRITE, FAIL);
+    }
     if (DFdiwrite(hdf_file_id, GroupID, DFTAG_RIG, img_ptr->rig_ref) == FAIL)
         HGOTO_ERROR(DFE_GROUPWRITE, FAIL);
 
